@@ -219,10 +219,12 @@ def gen_leaf(R, pool, row, conv_hint):
             c = getattr(_enums, en)
             ms = list(c)
             r = R.random()
-            if r < 0.4:
+            if r < 0.35:
                 return R.choice(ms)
-            if r < 0.8:
+            if r < 0.7:
                 return R.choice(ms).value
+            if r < 0.85:
+                return R.choice(ms).name      # the Python-side member name as a plain string: free text like any other
             return R.choice(STRS)
         return R.choice(STRS + INTS[:10] + FLOATS[:8])
     if k < 0.75:
@@ -608,3 +610,128 @@ def run_stream(chk, model, bres, R, n_per_attr, schema_rows, stream='convert', h
         if impl_line != rep:
             chk.disagree(stream, dict(case, request=req), impl_line, rep)
     return len(reqs)
+
+
+# ---------------------------------------------------------------------------------------------------------
+# numbers that are not builtin int / float (numpy scalars, Fraction, Decimal): outside the converter model (PyVal has
+# no such values), so decided by oracles alone
+
+def _numberlike_pool():
+    import numpy as np
+    from fractions import Fraction
+    from decimal import Decimal
+    vals = []
+    for x in (0.0, 1.0, 2.0, 3.0, 2.5, 0.5, -1.5, 7.25, 100.0, 255.0, 256.0, 0.1, 1e-3, 12345.678, -0.0):
+        vals += [np.float32(x), np.float64(x), np.float16(x)]
+    for x in (0, 1, 2, 5, 127, 128, 255, 256, 32767, 65535, 65536, -1, -128, -129):
+        for t in (np.int8, np.int16, np.int32, np.int64, np.uint8, np.uint16, np.uint32, np.uint64):
+            info = np.iinfo(t)
+            if info.min <= x <= info.max:
+                vals.append(t(x))
+    vals += [Fraction(5, 2), Fraction(3, 1), Fraction(7, 4), Fraction(0), Fraction(-9, 2), Fraction(256), Fraction(1, 8),
+             Decimal('2.5'), Decimal('3'), Decimal('0'), Decimal('7.25'), Decimal('-4.5'), Decimal('300'), Decimal('0.125')]
+    return vals
+
+
+def _exact(x):
+    """the mathematical value of a number-like object (None for NaN / infinities)"""
+    from fractions import Fraction
+    try:
+        if isinstance(x, bool):
+            return Fraction(int(x))
+        return Fraction(x) if not hasattr(x, 'dtype') else Fraction(x.item())
+    except (ValueError, OverflowError, TypeError):
+        return None
+
+
+def numberlike_stream(chk, R, n, schema_rows, stream='number-like'):
+    """numpy scalars, Fraction and Decimal values assigned to the numeric attributes of every object type (single values
+    and lists, at creation route `set_attributes`): an accepted assignment leaves values that are mathematically equal
+    to the given ones (so a fraction is never cut to an integer), and the component written for them decodes to the same
+    numbers under its representation code (FSINGL of a value that is not a single is the nearest single)."""
+    import numpy as np
+    pool = _numberlike_pool()
+    by_type = {sc.set_type: sc for sc in SET_CLASSES}
+    targets = [(st, row) for st in sorted(schema_rows) for row in schema_rows[st]
+               if row[2] in ('NumericAttribute', 'DimensionAttribute', 'StatusAttribute') and st in by_type]
+    rd, meta = [], []
+    for i in range(n):
+        st, row = R.choice(targets)
+        pyname, label = row[1], row[0]
+        item = make_item(by_type[st])
+        attr = item.attributes[pyname]
+        k = 1 if not row[4] or R.random() < 0.4 else R.choice([1, 2, 3])
+        vals = [R.choice(pool) for _ in range(k)]
+        given = vals[0] if (k == 1 and R.random() < 0.7) else vals
+        case = {'set_type': st, 'attribute': pyname, 'label': label,
+                'call': f'item.set_attributes({pyname}={given!r})', 'types': [type(v).__name__ for v in vals]}
+        s, e = call(item.set_attributes, **{pyname: given})
+        chk.case(stream, nontrivial_key=(stream, i), sample={'set_type': st, 'attribute': pyname, 'given': repr(given)[:80], 'outcome': s if s == 'ok' else e})
+        chk.count(f'{stream}:{row[2]}:{s if s == "ok" else e}')
+        if s != 'ok':
+            continue
+        held = attr.value
+        hl = flat(held) if isinstance(held, (list, tuple)) else [held]
+        if len(hl) != len(vals):
+            chk.fail(f'{stream}:accepted-value-altered', dict(case, held=repr(held)), f'assigned {len(vals)} value(s), attribute holds {held!r}')
+            continue
+        bad = None
+        for g, h in zip(vals, hl):
+            eg, eh = _exact(g), _exact(h)
+            if row[2] == 'StatusAttribute':
+                ok = eh in (0, 1) and eg == eh
+            else:
+                ok = eg is not None and eg == eh
+            if not ok:
+                bad = (g, h)
+                break
+        if bad:
+            chk.fail(f'{stream}:accepted-value-altered', dict(case, held=repr(held)),
+                     f'assigned {bad[0]!r} ({type(bad[0]).__name__}), attribute holds {bad[1]!r}')
+            continue
+        sb, b = call(attr.get_as_bytes)
+        if sb == 'ok' and b:
+            rd.append(f"peflrv {synthetic_set(b, label).hex()}")
+            meta.append((case, vals, b))
+    return rd, meta
+
+
+def numberlike_finish(chk, model, rd, meta, stream='number-like'):
+    from fractions import Fraction
+    for (case, vals, b), rr in zip(meta, model.ask(rd)):
+        chk.count(f'{stream}:reader-oracle')
+        if not rr.startswith('ok'):
+            chk.fail(f'{stream}:component-undecodable', dict(case, attribute_bytes=b.hex()), 'the component does not decode')
+            continue
+        body = rr.split('] ', 1)[1] if '] ' in rr else ''
+        comp = body.split('|', 1)[1] if '|' in body else ''
+        if comp == '~' or comp.count(':') < 3:
+            chk.fail(f'{stream}:component-content', dict(case, attribute_bytes=b.hex()), f'decoded {comp!r}')
+            continue
+        cnt, rc, units, vs = comp.split(':', 3)
+        toks = [] if vs == '-' else vs.split(',')
+        if len(toks) != len(vals):
+            chk.fail(f'{stream}:component-count', dict(case, attribute_bytes=b.hex()), f'{len(vals)} value(s) assigned, {len(toks)} decoded')
+            continue
+        for g, t in zip(vals, toks):
+            eg = _exact(g)
+            if t[0] == 'd':
+                dec = Fraction(struct.unpack('>d', struct.pack('>Q', int(t[1:])))[0])
+            elif t[0] == 'f':
+                dec = Fraction(struct.unpack('>f', struct.pack('>I', int(t[1:])))[0])
+                eg = Fraction(struct.unpack('>f', struct.pack('>f', float(eg)))[0])
+            elif t[0] == 'i':
+                dec = Fraction(int(t[1:]))
+            else:
+                dec = None
+            if dec != eg:
+                chk.fail(f'{stream}:component-value', dict(case, attribute_bytes=b.hex(), representation_code_read=rc),
+                         f'assigned {g!r} ({type(g).__name__}); a reader decodes {t} under code {rc}')
+                break
+
+
+def run_numberlike(chk, model, bres, R, n, schema_rows, stream='number-like'):
+    if not bres.ok:
+        return
+    rd, meta = numberlike_stream(chk, R, n, schema_rows, stream)
+    numberlike_finish(chk, model, rd, meta, stream)
